@@ -303,10 +303,10 @@ fn jobs_for(tier: Tier, seed: u64) -> Vec<Job> {
     match tier {
         Tier::Quick => {
             for i in 0..16 {
-                v.push(Job { engine: "native", seed: base + i, calls: 12_000, sessions: 2, scripted: false });
+                v.push(Job { engine: "native", seed: base + i, calls: 12_000, sessions: 3, scripted: false });
             }
             for i in 0..16 {
-                v.push(Job { engine: "asan", seed: base + 100 + i, calls: 8_000, sessions: 2, scripted: true });
+                v.push(Job { engine: "asan", seed: base + 100 + i, calls: 9_000, sessions: 3, scripted: true });
             }
             for i in 0..6 {
                 v.push(Job { engine: "valgrind", seed: base + 200 + i, calls: 120, sessions: 1, scripted: false });
